@@ -277,7 +277,88 @@ def _poison(a):
     core.attempt_all([big_len, no_seq_num, no_dest, mismatched, oversized, cut, foreign])
 
 
+# ---- derived values the header remembers (case key "hist" of hdr_pack): read, change through the setters, read ----
+HDR_VIEW_NAMES = ["header_len", "packet_len", "fields", "pack", "verify", "eq"]
+
+
+def _hdr_views(final):
+    """every derived view of a header as plain values (lengths, the field view with the lengths of header and
+    configuration object, the octets and the length read back from them, the length / checksum verification of a PDU
+    made for it, == with a header built from the final values)"""
+    def v_pack(h):
+        raw = pack_stable(h, "PduHeader.pack()")
+        return {"raw": hx(raw), "len_from_raw": int(AbstractPduBase.header_len_from_raw(raw))}
+
+    def v_verify(h):
+        hdr, n = bytes(h.pack()), int(h.pdu_data_field_len)
+        if n > 48:
+            return None
+        crc = int(h.crc_flag) == 1 and n >= 2
+        pdu = with_crc(hdr + bytes(n - 2)) if crc else hdr + bytes(n)
+        return int(h.verify_length_and_checksum(pdu + b"\x5a"))
+
+    def v_eq(h):
+        ref = _hdr(final)
+        return [bool(h == ref), bool(ref == h)]
+    return [("header_len", lambda h: int(h.header_len)), ("packet_len", lambda h: int(h.packet_len)), ("fields", _fields),
+            ("pack", v_pack), ("verify", v_verify), ("eq", v_eq)]
+
+
+def _hdr_mutate(h: PduHeader, old, new, path: str):
+    """old -> new through the documented ways of changing a header: "hdr" its setters and set_entity_ids, "conf" the
+    attributes of the configuration object it exposes as pdu_conf (type, segment-metadata flag and data-field length live
+    on the header itself); "all": every setter is called, also for the values that stay"""
+    every = path.endswith("+all")
+    conf = path.startswith("conf")
+
+    def diff(*keys):
+        return every or any(old[k] != new[k] for k in keys)
+    if diff("ptype"):
+        h.pdu_type = PduType(new["ptype"])
+    if diff("segmeta"):
+        h.segment_metadata_flag = SegmentMetadataFlag(new["segmeta"])
+    if diff("dlen"):
+        h.pdu_data_field_len = new["dlen"]
+    tgt = h.pdu_conf if conf else h
+    for key, attr, en in (("mode", "trans_mode" if conf else "transmission_mode", TransmissionMode),
+                          ("large", "file_flag", LargeFileFlag), ("crc", "crc_flag", CrcFlag),
+                          ("dir", "direction", Direction), ("segctrl", "seg_ctrl", SegmentationControl)):
+        if diff(key):
+            setattr(tgt, attr, en(new[key]))
+    if diff("seq_w", "seq_v"):
+        tgt.transaction_seq_num = UnsignedByteField(new["seq_v"], new["seq_w"])
+    if diff("src_w", "src_v", "dst_w", "dst_v"):
+        s, d = UnsignedByteField(new["src_v"], new["src_w"]), UnsignedByteField(new["dst_v"], new["dst_w"])
+        if conf:
+            h.pdu_conf.source_entity_id, h.pdu_conf.dest_entity_id = s, d
+        else:
+            h.set_entity_ids(source_entity_id=s, dest_entity_id=d)
+
+
+def _hdr_after_history(a) -> PduHeader:
+    """the header of the case's parameters, reached the long way: built (or decoded) with other values, looked at, changed
+    to the case's values through the setters; what it shows then is what a header built directly with the case's values
+    shows. Own configuration object (setters write to it)."""
+    hist = a["hist"]
+    old = hist["from"]
+
+    def make():
+        return PduHeader.unpack(spec_pack(old) + b"\x00\x01") if hist.get("how") == "unpack" else _hdr(old)
+    got = {}
+    err = core.read_mutate_read(make, _hdr_views(a), lambda h: _hdr_mutate(h, old, a, hist.get("path", "hdr")),
+                                lambda: _hdr(a), "PduHeader", first=hist.get("read"), after=hist.get("after"), out=got)
+    if err:
+        raise SelfCheckFailure(err)
+    return got["obj"]
+
+
+def _in_domain(a) -> bool:
+    return a["src_w"] == a["dst_w"] and a["src_w"] in WIDTHS and a["seq_w"] in WIDTHS and 0 <= a["dlen"] <= 65535
+
+
 def op_hdr_pack(a):
+    if a.get("hist") and _in_domain(a) and _in_domain(a["hist"]["from"]):
+        return _packed(_hdr_after_history(a))
     if a.get("poison"):
         _poison(a)
     conf = shared_conf(a)
@@ -753,6 +834,42 @@ class C05(Prop):
                     b[rng.randrange(len(hdr), len(b))] ^= 1 << rng.randint(0, 7)
                     yield Case({"op": "hdr_unpack_verify", "raw": hx(bytes(b)), "mut": m | 1}, "invalid", errclass=True,
                                tag="setters-then-verify")
+
+        # --- a header that reached the case's values the long way (key "hist"): built / decoded with other values, some or
+        #     all of its derived views read (header_len, packet_len, the field view, pack, the length verification), then
+        #     changed through the documented setters / set_entity_ids / the attributes of its pdu_conf, then every view read
+        #     again: all of that is what a header built directly with the final values shows, and what the model packs ---
+        reads = [None, ["header_len"], ["packet_len"], ["fields"], ["verify"], ["pack"], []]
+        groups = [["seq_w", "seq_v"], ["src_w", "src_v", "dst_w", "dst_v"], ["dlen"], ["ptype", "segmeta"],
+                  ["mode", "large", "crc", "dir", "segctrl"]]
+        k = 0
+        for rep in range(10 if thorough else 1):
+            for how in ("new", "unpack"):
+                for path in ("hdr", "conf", "hdr+all", "conf+all"):
+                    for rd in reads:
+                        for g in range(len(groups) + 2):
+                            k += 1
+                            a = rand_hdr(rng, dlen=rng.choice([0, 1, 2, 5, 40, 300, 65535, rng.randint(0, 65535)]))
+                            old = rand_hdr(rng)
+                            if g < len(groups):
+                                # one group of values changes (for the widths: always to another width), the rest stays
+                                keep = {x for x in HDR_KEYS if x not in groups[g]}
+                                if g == 0:
+                                    old["seq_w"] = rng.choice([w for w in WIDTHS if w != a["seq_w"]])
+                                    old["seq_v"] = rand_val(rng, old["seq_w"])
+                                elif g == 1:
+                                    w = rng.choice([w for w in WIDTHS if w != a["src_w"]])
+                                    old.update(src_w=w, dst_w=w, src_v=rand_val(rng, w), dst_v=rand_val(rng, w))
+                                for x in keep:
+                                    old[x] = a[x]
+                            elif g == len(groups):
+                                for x in rng.sample(HDR_KEYS, 5):
+                                    if x not in ("src_w", "dst_w", "src_v", "dst_v", "seq_w", "seq_v"):
+                                        old[x] = a[x]
+                            after = list(HDR_VIEW_NAMES)
+                            rng.shuffle(after)
+                            yield Case({"op": "hdr_pack", **a, "hist": {"from": old, "how": how, "path": path, "read": rd,
+                                                                        "after": after}}, "valid", tag="read-set-read")
 
         # --- state leaking between calls / objects (the ops keep the objects decoded by the previous calls and
         #     hand the same PduConfig instance to cases with equal configuration parameters) ---
